@@ -19,6 +19,7 @@ import Poulpy.Lemmas.AccAdd
 import Poulpy.Lemmas.EpTotal
 import Poulpy.Lemmas.CswapTotal
 import Poulpy.Lemmas.HeadRoom
+import Poulpy.Lemmas.ExpandTotal
 import Poulpy.Lemmas.MulNorm
 
 /-!
@@ -1282,5 +1283,49 @@ example (m2 : Ks.R 1) (σ : ℕ → Ks.R 1) :
     (by decide) (by decide) rfl (by decide) (Ks.entry_length staleG.toPMat 1 rfl (by decide)) (by decide)
     (by intro i _ r _; exact (add_sub_cancel _ _).symm)
   exact ⟨res, h1, h2⟩
+
+/-- **`expand_cell_decrypts`** — the add step of the row expansion composed end to end (`ggsw_expand_rows_internal`, hence `ggsw_from_gglwe`,
+`ggsw_keyswitch`, `ggsw_automorphism`): every cell `c` (output column `c+1`) that `Core.expandRowCols` returns is well formed and
+`2^(bt·S)·phase(cell) = 2^(rb·rs)·(s_c·Me + Σ_i(Σ_r digit·E − dropped − β^S·head)) + En + 2^(…)·Q`, `‖En‖_∞ ≤ (1+Σ‖s_i‖₁)·normTol`, where
+`Me = body + Σ_i σ_i·usedVal(a_i)` is the row's phase: the same message in every column.  Both accumulator widths, any result radix; the
+body is added exactly under the head-room `X + Y + 8 ≤ 2^62 / 2^126` (`X` from `relin_headroom`-type digit bounds). -/
+theorem expand_cell_decrypts (N : Nat) (big128 : Bool) (rb rs : Nat) (sk : List Poly) (a0 : Col) (aDft : List Col) (t : ToGGSWKey)
+    (cells : List (List Col)) (c : Nat) (cell : List Col)
+    (hcells : expandRowCols big128 N rb rs a0 aDft t = some cells) (hcell : cells[c]? = some cell)
+    (X Y : Int) (sc Me : Ks.R N) (σ : ℕ → Ks.R N) (E : ℕ → ℕ → Ks.R N)
+    (hrb1 : 1 ≤ rb) (hrb : rb ≤ 62) (ht1 : 1 ≤ t.base2k) (ht62 : t.base2k ≤ 62)
+    (hX0 : 0 ≤ X) (hY0 : 0 ≤ Y) (hH : X + Y + 8 ≤ 2 ^ (bitsOf big128 - 2))
+    (hPb : ∀ col ∈ expandProd N aDft t c, ∀ l ∈ col, ∀ x ∈ l, |x| ≤ X) (ha0 : C02L.LimbsN N a0) (ha0b : ∀ l ∈ a0, ∀ x ∈ l, |x| ≤ Y)
+    (hd : 1 ≤ t.dsize) (hN : 0 < N) (hn : t.n = N) (hM : ∀ j q, ((t.at c).toPMat.entry j q).length = N)
+    (hS : t.dnum * t.dsize ≤ t.size) (hsk : c < sk.length) (hsc : sc = Ks.ι N (sk.getD c []))
+    (hkey : ∀ i, i < t.rank → ∀ r, r < t.dnum →
+      Gadget.val ((2 : Ks.R N) ^ t.base2k) t.size (Ks.keyPhase N sk (t.at c).toPMat i r)
+        = sc * σ i * ((2 : Ks.R N) ^ t.base2k) ^ (t.size - (r + 1) * t.dsize) + E i r)
+    (hrow : colValS N ((2 : Ks.R N) ^ t.base2k) t.size a0 + expandUsed N aDft t ((2 : Ks.R N) ^ t.base2k) σ = Me) :
+    C02L.GWF N (Ks.mkCt rb N cell) ∧ (∀ col ∈ cell, ∀ l ∈ col, ∀ x ∈ l, |x| ≤ 2 ^ rb - 1) ∧
+      ∃ En Q : Poly, En.length = N ∧ Q.length = N ∧
+        normInf En ≤ (1 + C02L.snorm (min t.rank sk.length) sk) * C02.normTol (rb * rs) (t.base2k * t.size) ∧
+        (2 : Ks.R N) ^ (t.base2k * t.size) * Ks.ι N (C02L.valP rb N (Core.Ops.phase sk (Ks.mkCt rb N cell)))
+          = (2 : Ks.R N) ^ (rb * rs) * (sc * Me + expandErr N sk aDft t c ((2 : Ks.R N) ^ t.base2k) E)
+            + Ks.ι N En + (2 : Ks.R N) ^ (rb * rs + t.base2k * t.size) * Ks.ι N Q := by
+  obtain ⟨_, hacc⟩ := expandRowCols_accumulator big128 N rb rs a0 aDft t cells hcells
+  obtain ⟨hc, hm⟩ := hacc c cell hcell
+  obtain ⟨cell', h1, h2, h3, h4⟩ := expand_cell_total N big128 rb rs sk a0 aDft t c X Y sc Me σ E hrb1 hrb ht1 ht62 hX0 hY0 hH hPb ha0 ha0b
+    hd hN hn hM hS hc hsk hsc hkey hrow
+  rw [hm] at h1
+  injection h1 with h1
+  subst h1
+  exact ⟨h2, h3, h4⟩
+
+example (σ : ℕ → Ks.R 1) : C02L.GWF 1 (Ks.mkCt 4 1 [[[1], [0], [0]], [[3], [1], [0]]]) := by
+  have h := expand_cell_decrypts 1 false 4 3 [[1]] [[1], [0]] [[[2], [1]]] exT [[[[1], [0], [0]], [[3], [1], [0]]]] 0 [[[1], [0], [0]], [[3], [1], [0]]]
+    (by decide +kernel) rfl (2 ^ 60) (2 ^ 60) (Ks.ι 1 [1])
+    (colValS 1 ((2 : Ks.R 1) ^ exT.base2k) exT.size [[1], [0]] + expandUsed 1 [[[2], [1]]] exT ((2 : Ks.R 1) ^ exT.base2k) σ) σ
+    (fun i r => Gadget.val ((2 : Ks.R 1) ^ exT.base2k) exT.size (Ks.keyPhase 1 [[1]] (exT.at 0).toPMat i r)
+      - Ks.ι 1 [1] * σ i * ((2 : Ks.R 1) ^ exT.base2k) ^ (exT.size - (r + 1) * exT.dsize))
+    (by decide) (by decide) (by decide) (by decide) (by decide) (by decide) (by decide) (by decide +kernel) (by decide) (by decide)
+    (by decide) (by decide) rfl (Ks.entry_length (exT.at 0).toPMat 1 rfl (by decide)) (by decide) (by decide) rfl
+    (by intro i _ r _; exact (add_sub_cancel _ _).symm) rfl
+  exact h.1
 
 end C04
